@@ -1366,8 +1366,10 @@ def info_for_single_file(root_path, verbose, single_file):
     for path in single_file:
         relative_path = existing_history.get_relative_file_path(os.path.abspath(path))
         logger.info(f"{relative_path}:")
-        for hash_list in existing_history.hash_lists:
-            media_hash = hash_list.find_media_hash_for_path(relative_path)
+        # the records of a file inside a nested history are held by that (nearest enclosing) history
+        history, history_relative_path = existing_history.find_history_for_path(relative_path)
+        for hash_list in history.hash_lists:
+            media_hash = hash_list.find_media_hash_for_path(history_relative_path)
             if media_hash is None:
                 continue
             for hash_entry in media_hash.hash_entries:
@@ -1382,11 +1384,13 @@ def info_for_single_file(root_path, verbose, single_file):
                         f"     CreatorInfo: {creatorInfo}\n"
                         f"     ProcessInfo: {processInfo}"
                     )
-                    if media_hash.previous_path and relative_path == media_hash.path:
+                    if media_hash.previous_path and history_relative_path == media_hash.path:
                         logger.info(
                             " In previous generations the file was named: {}\n\n".format(media_hash.previous_path)
                         )
-                        info_for_single_file(root_path, verbose, [os.path.join(root_path, media_hash.previous_path)])
+                        info_for_single_file(
+                            root_path, verbose, [os.path.join(history.get_root_path(), media_hash.previous_path)]
+                        )
                 else:
                     logger.info(
                         f"  Generation {hash_list.generation_number} ({hash_list.creator_info.creation_date})"
